@@ -74,6 +74,12 @@ func (a *AES128CBC) DecodeFromBytes(data []byte, _ gopacket.DecodeFeedback) erro
 		return fmt.Errorf("invalid number of pad bytes: %v", padBytes)
 	}
 	padStart := len(data) - int(padBytes) - 1
+	if padStart < a.cipher.BlockSize() {
+		// the pad cannot extend into the IV; with a single encrypted block,
+		// 16 pad bytes plus the pad length byte do not fit
+		return fmt.Errorf("invalid number of pad bytes: %v in %v encrypted bytes",
+			padBytes, len(data)-a.cipher.BlockSize())
+	}
 	// table 13-20 of the spec says we should check the pad
 	v := uint8(1)
 	for i := padStart; i < padStart+int(padBytes); i++ {
